@@ -224,7 +224,7 @@ def dataset_inputs(syms):
 
 
 # ---------------------------------------------------------------- concrete side --
-def real_dataset(d, tmp, fid, rows, label_enc="pm1", suffix=".pin"):
+def real_dataset(d, tmp, fid, rows, label_enc="pm1", suffix=".pin", filecol=False):
     """Write one real PIN/Parquet file and build the OnDiskPsmDataset through the public
     reader (mokapot.read_pin). Hash ORDER of the uninterpreted crc32 cannot be imposed on
     zlib; the concrete oracle is evaluated for whatever order the real hash produces."""
@@ -238,6 +238,9 @@ def real_dataset(d, tmp, fid, rows, label_enc="pm1", suffix=".pin"):
                        "fileid": [float(fid)] * n, "f1": [float(x) for x in rows["f1"]]})
     if rows.get("keycols", 2) == 1:
         df = df.drop(columns=["ExpMass"])
+    if filecol:
+        # the optional file-name column: a text column that read_pin puts first among the spectrum columns
+        df.insert(2, "filename", ["run%d.mzML" % fid] * n)
     p = Path(tmp) / ("file%d%s" % (fid, suffix))
     if suffix == ".parquet":
         df.to_parquet(p, index=False)
